@@ -11,6 +11,7 @@ import (
 	"crypto/elliptic"
 	"crypto/rand"
 	"crypto/x509"
+	"encoding/json"
 	"encoding/pem"
 	"fmt"
 	"net/url"
@@ -239,3 +240,105 @@ func verifCheckX509UserCert(c *x509.Certificate, user string, submitted crypto.P
 	}
 	return bad
 }
+
+// ---- enrolment flows (HTTP only) -------------------------------------------
+
+func verifCk(cookie string) map[string]string { return map[string]string{"auth_cookie": cookie} }
+
+// verifEnrollTOTP runs the real generate + validate flow and returns the secret.
+func verifEnrollTOTP(e *verifEnv, cookie string) (string, error) {
+	r := e.Do(verifReq{Method: "POST", Path: "/totp/GenerateNew/", Cookies: verifCk(cookie)}.Build())
+	if r.Code != 200 {
+		return "", fmt.Errorf("GenerateNew: %d %s", r.Code, firstLines(string(r.Body), 2))
+	}
+	var out struct{ TOTPSecret string }
+	if err := jsonUnmarshal(r.Body, &out); err != nil || out.TOTPSecret == "" {
+		return "", fmt.Errorf("GenerateNew: no secret in %q", firstLines(string(r.Body), 2))
+	}
+	code := verifTOTPCode(out.TOTPSecret, time.Now())
+	r = e.Do(verifReq{Method: "POST", Path: "/totp/ValidateNew/", Form: url.Values{"OTP": {code}}, Cookies: verifCk(cookie)}.Build())
+	if r.Code != 302 {
+		return "", fmt.Errorf("ValidateNew: %d %s", r.Code, firstLines(string(r.Body), 2))
+	}
+	return out.TOTPSecret, nil
+}
+
+// verifEnrollU2F runs the real register request/response flow with a soft token.
+func verifEnrollU2F(e *verifEnv, cookie, user string, tok *verifU2FToken) error {
+	r := e.Do(verifReq{Method: "GET", Path: "/u2f/RegisterRequest/" + user, Cookies: verifCk(cookie)}.Build())
+	if r.Code != 200 {
+		return fmt.Errorf("RegisterRequest: %d %s", r.Code, firstLines(string(r.Body), 2))
+	}
+	var req struct {
+		AppID            string `json:"appId"`
+		RegisterRequests []struct {
+			Challenge string `json:"challenge"`
+		} `json:"registerRequests"`
+	}
+	if err := jsonUnmarshal(r.Body, &req); err != nil || len(req.RegisterRequests) == 0 {
+		return fmt.Errorf("RegisterRequest: bad body %q", firstLines(string(r.Body), 2))
+	}
+	body, _ := jsonMarshal(tok.RegisterResponse(req.AppID, req.RegisterRequests[0].Challenge))
+	r = e.Do(verifReq{Method: "POST", Path: "/u2f/RegisterResponse/" + user, RawBody: body, RawCT: "application/json", Cookies: verifCk(cookie)}.Build())
+	if r.Code != 200 {
+		return fmt.Errorf("RegisterResponse: %d %s", r.Code, firstLines(string(r.Body), 2))
+	}
+	return nil
+}
+
+type verifU2FSignReq struct {
+	AppID          string `json:"appId"`
+	Challenge      string `json:"challenge"`
+	RegisteredKeys []struct {
+		KeyHandle string `json:"keyHandle"`
+	} `json:"registeredKeys"`
+}
+
+// verifU2FBegin asks for a sign challenge for the session's user.
+func verifU2FBegin(e *verifEnv, cookie string) (*verifU2FSignReq, *verifResp) {
+	r := e.Do(verifReq{Method: "GET", Path: "/u2f/SignRequest", Cookies: verifCk(cookie)}.Build())
+	if r.Code != 200 {
+		return nil, r
+	}
+	var req verifU2FSignReq
+	if err := jsonUnmarshal(r.Body, &req); err != nil {
+		return nil, r
+	}
+	return &req, r
+}
+
+func verifU2FFinish(e *verifEnv, cookie string, resp map[string]string) *verifResp {
+	body, _ := jsonMarshal(resp)
+	return e.Do(verifReq{Method: "POST", Path: "/u2f/SignResponse", RawBody: body, RawCT: "application/json", Cookies: verifCk(cookie)}.Build())
+}
+
+func verifAdminAddUser(e *verifEnv, adminCookie, user string) *verifResp {
+	return e.Do(verifReq{Method: "POST", Path: "/admin/addUser", Form: url.Values{"username": {user}}, Cookies: verifCk(adminCookie)}.Build())
+}
+
+// verifAdminBootstrapOTP returns the one-time value an administrator obtains for user.
+func verifAdminBootstrapOTP(e *verifEnv, adminCookie, user, duration string) (string, *verifResp) {
+	f := url.Values{"username": {user}}
+	if duration != "" {
+		f.Set("duration", duration)
+	}
+	r := e.Do(verifReq{Method: "POST", Path: "/admin/newBoostrapOTP", Form: f, Cookies: verifCk(adminCookie)}.Build())
+	if r.Code != 200 {
+		return "", r
+	}
+	var out struct{ BootstrapOTPValue string }
+	jsonUnmarshal(r.Body, &out)
+	return out.BootstrapOTPValue, r
+}
+
+// verifCookieInfo decodes a session cookie with the published keys.
+func verifCookieInfo(tok string, keys []crypto.PublicKey) (sub string, bits int, ok bool) {
+	c, ok := verifVerifyJWS(tok, keys)
+	if !ok {
+		return "", 0, false
+	}
+	return verifClaimStr(c, "sub"), int(verifClaimInt(c, "auth_type")), true
+}
+
+func jsonUnmarshal(b []byte, v interface{}) error { return json.Unmarshal(b, v) }
+func jsonMarshal(v interface{}) ([]byte, error)    { return json.Marshal(v) }
